@@ -5,6 +5,7 @@ use serde_json::{json, Value};
 pub mod framing;
 pub mod status;
 pub mod call;
+pub mod meta;
 
 /// Shared event recorder so that events survive a panic or hang of the run.
 #[derive(Clone, Default)]
@@ -22,6 +23,7 @@ pub fn gen(lab: &str, seed: u64, tier: &str) -> Vec<Value> {
         "framing_limits" => framing::gen_limits(seed, tier),
         "status" => status::gen(seed, tier),
         "call" => call::gen(seed, tier),
+        "meta" => meta::gen(seed, tier),
         _ => { eprintln!("unknown lab {lab}"); std::process::exit(2) }
     }
 }
@@ -31,6 +33,7 @@ fn run_one(lab: &str, stim: &Value, rec: &Rec) {
         "framing" | "framing_hostile" | "framing_limits" => framing::run(stim, rec),
         "status" => status::run(stim, rec),
         "call" => call::run(stim, rec),
+        "meta" => meta::run(stim, rec),
         _ => { eprintln!("unknown lab {lab}"); std::process::exit(2) }
     }
 }
